@@ -208,7 +208,7 @@ def run(ctx):
     ctx.units("title-lines", unit_titles, [{"shard": i, "nshards": ns} for i in range(ns)], procs=ns)
     ctx.units("step-lines", unit_steps, [{"shard": i, "nshards": ns} for i in range(ns)], procs=ns)
     ctx.units("table-lines", unit_tables, [{}])
-    ctx.units("tag-lines", unit_tags, [{"n": 1500 if q else 12000, "seed": ctx.seed, "shard": i} for i in range(2 if q else 16)], procs=16)
+    ctx.units("tag-lines", unit_tags, [{"n": 2250 if q else 12000, "seed": ctx.seed, "shard": i} for i in range(8 if q else 16)], procs=16)
     ctx.exhaustive = False
     ctx.extra["exhaustive_part"] = ("80 dialects x every title keyword x header depth 1..7 x indentation 0..3 x 3 titles (+ no blank after the hashes, no prefix); every step keyword x "
                                    "bullet * + - x 1..2 blanks x indentation 0..3 (+ without bullet); table indentation 0..8 x 10 rows: complete in both tiers")
